@@ -230,6 +230,7 @@ const (
 	HMapL
 	HAlloc
 	HGhost
+	HChan
 )
 
 type Heap struct {
@@ -273,6 +274,17 @@ func (s *Sorts) MapHeaps(m *types.Map) (p, v, l Heap) {
 	p = Heap{Name: "MP$" + k, Sort: "(Array Int (Array " + q(s.SortOf(m.Key())) + " Bool))", Kind: HMapP}
 	v = Heap{Name: "MV$" + k, Sort: "(Array Int (Array " + q(s.SortOf(m.Key())) + " " + q(s.SortOf(m.Elem())) + "))", Kind: HMapV, Elem: refKind(m.Elem())}
 	l = Heap{Name: "ML$" + k, Sort: "(Array Int Int)", Kind: HMapL}
+	return
+}
+
+// ChanHeaps: the last value sent on a channel and the number of sends, per element type.
+func chanHeapNames(elem types.Type) (v, n string) {
+	return "CHV$" + typeKey(elem), "CHN$" + typeKey(elem)
+}
+func (s *Sorts) ChanHeaps(elem types.Type) (v, n Heap) {
+	vn, nn := chanHeapNames(elem)
+	v = Heap{Name: vn, Sort: "(Array Int " + q(s.SortOf(elem)) + ")", Kind: HChan, Elem: refKind(elem)}
+	n = Heap{Name: nn, Sort: "(Array Int Int)", Kind: HChan}
 	return
 }
 
